@@ -450,6 +450,9 @@ def step (d : DState) (line : String) : DState × List String :=
   | ["nshift", a, b, c, t] =>
       let g := k4OfToks a b c t
       ({ d with nds := d.nds.shift g, nops := d.nops.push (.shift g) }, [])
+  | ["ncshift", n, a, b, c, t] =>   -- integer n-D shift under a state cap (C13)
+      let g := k4OfToks a b c t
+      ({ d with nds := d.nds.capShift K4.spatial n.toNat! g, nops := d.nops.push (.shift g) }, [])
   | "ndiff" :: dim :: k0 :: k1 :: k2 :: tau :: rest =>
       let kv : Array Float := #[fOfTok k0, fOfTok k1, fOfTok k2]
       let wave : K4 → Nat → CF := fun k n =>
